@@ -180,6 +180,25 @@ pub struct Obs {
 }
 
 impl Obs {
+    pub fn placeholder() -> Obs {
+        Obs {
+            listings: vec![],
+            buckets: vec![],
+            listing_used: BTreeSet::new(),
+            bucket_used: BTreeSet::new(),
+            fee_usdc: false,
+            fee_last: 0,
+            registry_addr: None,
+            registry: BTreeMap::new(),
+            bank: BTreeMap::new(),
+            cw20: BTreeMap::new(),
+            nft_owner: BTreeMap::new(),
+            pool: BTreeMap::new(),
+            admins: BTreeMap::new(),
+            height: 0,
+            time_ns: 0,
+        }
+    }
     pub fn fee_denom(&self) -> &'static str {
         if self.fee_usdc {
             "uusdcx"
@@ -308,11 +327,12 @@ pub fn observe(chain: &Chain, names: &Names) -> Obs {
         for (k, v) in w.kv.range(vec![b'p']..vec![b'q']) {
             pool.insert(String::from_utf8_lossy(&k[1..]).to_string(), dec_u128(v));
         }
-        for c in names.colls.iter().chain(names.cw20s.iter()) {
-            admins.insert(c.clone(), w.meta(c).and_then(|m| m.admin));
+        for (k, v) in w.kv.range(vec![b'm']..vec![b'n']) {
+            let addr = String::from_utf8_lossy(&k[1..]).to_string();
+            let m: serde_json::Value = serde_json::from_slice(v).expect("observe: meta");
+            admins.insert(addr, m["admin"].as_str().map(|s| s.to_string()));
         }
-        (w.height, w.time_ns)
-    };
+    }
 
     let mut cw20 = BTreeMap::new();
     for t in &names.cw20s {
